@@ -52,7 +52,7 @@ def fn_value(e):
     if e[0] == 'kc' and len(e) >= 3 and isinstance(e[2], str) and e[2].startswith('fn'):
         return ('fn', e[1])
     if e[0] == 'fnitem':
-        return ('fn', e[1])
+        return ('fn', e[2] if len(e) > 2 else e[1])
     return None
 
 
@@ -87,7 +87,9 @@ def apply_fn(db, fv, args, depth=0):
             env[('fld', ('p', 1), str(i))] = c
             env[('fld', ('p', 1), i)] = c
             if i < len(names):
-                env[('fld', ('p', 1), names[i])] = c
+                nm = names[i].get('name') if isinstance(names[i], dict) else names[i]
+                if isinstance(nm, str):
+                    env[('fld', ('p', 1), nm)] = c
     else:
         for i, a in enumerate(args):
             env[('p', i + 1)] = a
@@ -246,3 +248,76 @@ def pos_ids(e):
                 go(y)
     go(e)
     return s
+
+
+# ---- universally quantified facts -------------------------------------------------------------------------------------------------
+def _exhaustion_exit(f, L):
+    """The exit edge of loop L taken when its iterator is exhausted / its `while` guard fails: the edge leaving L from a block that
+    switches on the result of the `next()` call (or on the guard) evaluated in the loop header.  None when not identifiable."""
+    can = f.postdominators()
+    h = L['header']
+    ht = f.term(h)
+    cands = []
+    for a, b in L['exits']:
+        if b not in can:
+            continue
+        t = f.term(a)
+        if t['k'] != 'switch':
+            continue
+        if a == h:
+            cands.append((a, b))            # while-guard decided in the header itself
+            continue
+        # for-loop: header calls next(), the unique successor switches on its discriminant
+        if ht['k'] == 'call' and (f.callee_short(ht) or '').endswith(('Iterator::next', 'range::next')) and f.succs(h) and a in f.succs(h):
+            cands.append((a, b))
+    return cands[0] if len(cands) == 1 else None
+
+
+def forall_facts(db, f, R, C, block):
+    """Facts that hold for *every* position of a completed iteration when `block` is reached.
+    Each fact: dict(rel=(op, a, b) | ('true'|'false', e), L=loop id or header, extents=.., how='all' | 'loop').
+      * `it.all(clo)` known true at `block`                      -> clo(elem) for every element of `it`;
+      * a loop before `block` whose only exit leading to `block` is the exhaustion of its iterator (every other exit cannot reach it)
+                                                                   -> the relations that dominate the loop's latch, decided inside the body."""
+    from . import guards as G
+    out = []
+    for r in G.relations(f, R, block):
+        if r[0] == 'true' and isinstance(r[1], tuple) and r[1][0] == 'call' and r[1][1].endswith('Iterator::all') and len(r[1][2]) == 2:
+            L = _fresh()
+            el = C.elem_of(r[1][2][0], L)
+            if el is None:
+                continue
+            body = apply_fn(db, r[1][2][1], [el[0]])
+            if body is None:
+                continue
+            out.append(dict(rel=G.as_relation(C.canon(body), True), L=L, pos={L}, extents={L: el[1]}, how='all'))
+    reach_cache = {}
+
+    def reaches(a, b):
+        if a not in reach_cache:
+            seen, st = set(), [a]
+            while st:
+                x = st.pop()
+                if x in seen:
+                    continue
+                seen.add(x)
+                st.extend(f.succs(x))
+            reach_cache[a] = seen
+        return b in reach_cache[a]
+    can = f.postdominators()
+    for L in f.loops():
+        if block in L['body'] or not f.dominates(L['header'], block):
+            continue
+        ex = _exhaustion_exit(f, L)
+        if ex is None:
+            continue
+        others = [(a, b) for a, b in L['exits'] if (a, b) != ex and b in can and reaches(b, block)]
+        if others or not reaches(ex[1], block) or len(L['latches']) != 1:
+            continue
+        latch = L['latches'][0]
+        for r in G.relations(f, R, latch):
+            if r[-1] in L['body'] and r[-1] != ex[0] and r[0] != 'switch':
+                rel = tuple(C.canon(x) if isinstance(x, tuple) else x for x in r[:-1])
+                ids = pos_ids(rel)
+                out.append(dict(rel=rel, L=L['header'], pos=ids, extents={i: C.extents.get(i) for i in ids}, how='loop'))
+    return out
